@@ -91,6 +91,8 @@ def gen_case(r, tier):
         it = r.randint(0, max(0, niter - 1))
         sched += ["%d:%d:R" % (it, p) for p in range(2 * (n + nev) + 1)]
     g = r.choice([0.0, 0.0, 0.4, -0.3, 1.0])
+    if mesh == "ico1" and g < 0:
+        g = 0.0          # shrinking daughters of the small icosphere fall below the mesh resolution: the solver stops with "unstable"
     minv = r.choice([0.0] * 9 + [0.999, 0.98]) if phys else 0.0
     gap = r.choice([5.0, 5.0, 0.15])
     return mk(T, dt, S, mesh=mesh, n=n, instr=r.randint(0, 1), phys=phys, g=g, minv=minv, gap=gap, sched=",".join(sched), tag="gen")
@@ -552,7 +554,7 @@ def evaluate(cases, exe, drv, V, tag):
     outs = [os.path.join(root, "r%d" % i) for i in range(len(cases))]
     lines = [request_line(c, o) for c, o in zip(cases, outs)]
     st = {"files": 0, "files_parsed": 0, "rows": 0, "values": 0, "iterations": 0, "runs_ok": 0, "oracle_failures": 0,
-          "model_disagreements": 0, "crashes": 0, "reread": 0, "events": {"division": 0, "removal": 0, "empty": 0, "growth": 0},
+          "model_disagreements": 0, "crashes": 0, "unstable": 0, "reread": 0, "events": {"division": 0, "removal": 0, "empty": 0, "growth": 0},
           "ratio_classes": {}, "distinct": set(), "samples": []}
     try:
         answers, crashes = run_harness(exe, lines)
@@ -600,7 +602,10 @@ def evaluate(cases, exe, drv, V, tag):
             if o is None:
                 continue
             if o["status"] != "ok":
-                V.fail_input("real solver::run did not complete: %s" % o["status"], {"line": lines[i], "case": c}, key=None)
+                if "The simulation is unstable" in o["status"]:
+                    st["unstable"] += 1          # the solver's own verdict on the mechanics of this parameter set: not a run of the property
+                else:
+                    V.fail_input("real solver::run did not complete: %s" % o["status"], {"line": lines[i], "case": c}, key=None)
                 continue
             st["runs_ok"] += 1
             st["iterations"] += len(o["its"])
@@ -627,6 +632,8 @@ def evaluate(cases, exe, drv, V, tag):
                     st["model_disagreements"] += 1
                     if st["model_disagreements"] <= 3:
                         V.fail_tie("correspondence", "model and implementation differ on `%s`: %s" % (lines[i], d[0]), case=c, all=d[:4])
+        if st["unstable"] > max(2, len(cases) // 30):
+            V.fail_tie("correspondence", "%d of %d runs were stopped by the solver as unstable: the generated parameter sets no longer exercise the property" % (st["unstable"], len(cases)))
         # one report per kind of failure, on the shortest run that shows it
         for _, i, bad in sorted(fails, key=lambda f: (f[0], f[1])):
             cls, detail = bad[0]
@@ -656,7 +663,7 @@ def run(ctx):
     if not os.path.exists(drv) or (gen.get("Schedule", {}).get("error")):
         V.fail_tie("correspondence", "model driver missing (lake build failed)")
         drv = None
-    n = 120 if tier == "quick" else 1500
+    n = 120 if tier == "quick" else 1200
     if not proof["ok"]:
         n = max(n, 120)          # a proof broke: widen the search for a concrete failing input
     r = Rng(seed)
@@ -681,7 +688,7 @@ def run(ctx):
         "iterations_executed": st["iterations"], "file_pairs_written": st["files"], "vtk_files_parsed": st["files_parsed"],
         "files_reread_by_real_reader": st["reread"], "statistics_rows_checked": st["rows"], "values_compared": st["values"],
         "population_events": st["events"], "ratio_classes": st["ratio_classes"],
-        "model_vs_impl_disagreements": st["model_disagreements"], "oracle_failures": st["oracle_failures"], "crashes": st["crashes"],
+        "model_vs_impl_disagreements": st["model_disagreements"], "oracle_failures": st["oracle_failures"], "crashes": st["crashes"], "runs_stopped_as_unstable_by_the_solver": st["unstable"],
         "repo_objects_rebuilt": rebuilt, "samples": st["samples"],
     }
     vlib.write_evidence(PID, tier, "proof", cov, [
